@@ -1,17 +1,18 @@
 #!/usr/bin/env python3
 # usage: tools_mkmutant.py <prop> <name> <file> <old> <new> [<file> <old> <new> ...]
-# Creates /verif/mutants/<prop>/<name>.patch from exact-string replacements in /repo (working tree is left unchanged).
+# Creates /verif/mutants/<prop>/<name>.patch from exact-string replacements in /repo, or in the tree named by MKMUT_REPO (working tree is left unchanged).
 import sys,subprocess,os
+REPO=os.environ.get('MKMUT_REPO','/repo')  # a scratch worktree may be given while a long run uses /repo
 prop,name=sys.argv[1],sys.argv[2]
 args=sys.argv[3:]
-assert subprocess.run(['git','-C','/repo','status','--porcelain'],capture_output=True,text=True).stdout.strip()=='' , "repo not clean"
+assert subprocess.run(['git','-C',REPO,'status','--porcelain'],capture_output=True,text=True).stdout.strip()=='' , "repo not clean"
 for i in range(0,len(args),3):
     f,old,new=args[i:i+3]
-    p=os.path.join('/repo',f); s=open(p).read()
+    p=os.path.join(REPO,f); s=open(p).read()
     assert s.count(old)>=1,(f,old)
     s=s.replace(old,new,1); open(p,'w').write(s)
-d=subprocess.run(['git','-C','/repo','diff'],capture_output=True,text=True).stdout
+d=subprocess.run(['git','-C',REPO,'diff'],capture_output=True,text=True).stdout
 os.makedirs(f'/verif/mutants/{prop}',exist_ok=True)
 open(f'/verif/mutants/{prop}/{name}.patch','w').write(d)
-subprocess.run(['git','-C','/repo','checkout','--','.'],check=True)
+subprocess.run(['git','-C',REPO,'checkout','--','.'],check=True)
 print('wrote',f'/verif/mutants/{prop}/{name}.patch',len(d),'bytes')
